@@ -672,7 +672,12 @@ impl Database {
         let table_storage_arc = file_manager.table_data_mut(&schema_name, &table_name)?;
         let mut table_storage = table_storage_arc.write();
 
-        let mut btree = BTree::new(&mut *table_storage, 1)?;
+        // the root moves when it splits: take it from the file header, as the DML paths do
+        let table_root_page = {
+            let page0 = table_storage.page(0)?;
+            TableFileHeader::from_bytes(page0)?.root_page()
+        };
+        let mut btree = BTree::new(&mut *table_storage, table_root_page)?;
 
         if entry.is_insert {
             let row_values: Option<Vec<OwnedValue>> =
